@@ -145,7 +145,7 @@ def gen_cmdline(rng, small=True):
             argv.append(tw)
             meta['taper'] = True
     if ground:
-        med = rng.choice(['ideal', 'one', 'two', 'two-circ', 'radials'])
+        med = rng.choice(['ideal', 'one', 'two', 'two-circ', 'radials', 'two-lastcoord', 'three'])
         if med == 'ideal':
             argv += ['--medium=0,0,0']
         elif med == 'one':
@@ -154,6 +154,11 @@ def gen_cmdline(rng, small=True):
             argv += ['--medium=13,0.005,0,10', '--medium=5,0.001,-1']
         elif med == 'two-circ':
             argv += ['--medium=13,0.005,0,10', '--medium=5,0.001,-1', '--boundary=circular']
+        elif med == 'two-lastcoord':
+            # a coordinate given for the last medium, which has no next medium: it extends to infinity all the same
+            argv += ['--medium=13,0.005,0,10', '--medium=5,0.001,-1,%s' % rng.choice(['50', '5', '1e6'])]
+        elif med == 'three':
+            argv += ['--medium=13,0.005,0,10', '--medium=5,0.001,-1,30', '--medium=3,0.0005,-2'] + rng.choice([[], ['--boundary=circular'], ['--boundary=linear']])
         else:
             argv += ['--medium=13,0.005,0,12', '--medium=5,0.001,0', '--radial-count=%d' % rng.choice([8, 32]), '--radial-radius=0.001']
         meta['media'] = med
@@ -186,7 +191,7 @@ def gen_cmdline(rng, small=True):
         if kind == 'load':
             argv.append('--load=' + rng.choice(['50', '5+3j', '5-3j', '-2j', '0.5+100j', '1e3-1e-3j']))
         elif kind == 'rlc':
-            argv.append('--rlc-load=' + rng.choice(['1,1e-6,1e-10', '10,,', ',2e-6,', ',,1e-10', '5,1e-6,']))
+            argv.append('--rlc-load=' + rng.choice(['1,1e-6,1e-10', '10,,', ',2e-6,', ',,1e-10', '5,1e-6,', '50,0,1e-10', '0,0,4.7e-11', '0,3e-6,0', '50,,1e-10', '0,2e-6,3e-11', '7,0,0']))
         elif kind == 'trap':
             argv.append('--trap-load=1,1e-5,1e-11')
         else:
